@@ -544,7 +544,13 @@ p_uthread_sleep (puint32 msec)
 #  else
 		if (P_UNLIKELY ((result = nanosleep (&time_req, &time_rem)) != 0)) {
 #  endif
+			/* clock_nanosleep() reports an error through its return value
+			 * and leaves errno untouched, nanosleep() sets errno */
+#  if defined (PLIBSYS_HAS_CLOCKNANOSLEEP) && !defined (P_OS_SYLLABLE)
+			if (result == EINTR)
+#  else
 			if (p_error_get_last_system () == EINTR)
+#  endif
 				time_req = time_rem;
 			else
 				return -1;
